@@ -1192,7 +1192,7 @@ pub(crate) fn get_member_attrs(input: SynDataTypeMember, bark: bool) -> Result<M
             MemberInstruction::As(attr) => {
                 match input {
                     SynDataTypeMember::Field(f) => add_as_type_attrs(f, attr, &mut attrs.attrs),
-                    SynDataTypeMember::Variant(_) => unreachable!("1"),
+                    SynDataTypeMember::Variant(v) => Err(syn::Error::new(v.ident.span(), "Member instruction 'as_type' is not applicable to enum variants."))?,
                 };
             },
             MemberInstruction::Lit(attr) => attrs.lit_attrs.push(attr),
